@@ -73,4 +73,16 @@ def specXObservation (sched : List (Nat × XOp)) : String :=
     | none => "?"
   " / ".intercalate (("start " ++ showTable { processes := specTable specCopied [] }) :: steps)
 
+/-! ## Spec of a redirection of `exec`
+
+POSIX (2.7 Redirection, `exec`): `exec N>file` / `exec N<file` make descriptor N refer to the named file, `exec N>&M`
+makes N a copy of M (a new descriptor never has close-on-exec set), `exec N>&-` closes N; no other descriptor of the
+shell changes, and a redirection that cannot be performed changes nothing. -/
+
+/-- what descriptor `N` designates after a successful redirection of the given body, in terms of the process before -/
+def specRedirEntry (p : Proc) : RedirBody → Option FdEntry
+  | .file l => some { label := l }
+  | .copy s => (fdGet p.fds s).map fun e => { e with cloexec := false }
+  | .close => none
+
 end YashModel.Fork
